@@ -119,6 +119,11 @@ def run_check(prop, tier, jobs):
                     continue            # proved in the base configuration: this configuration only re-proves what depends on it
                 if relevant(sp, prop):
                     tasks.append((b, fn))
+        cost = {}
+        tp = os.path.join(ROOT, 'tools', 'timings.json')
+        if os.path.exists(tp):
+            cost = json.load(open(tp))
+        tasks.sort(key=lambda t: -cost.get('%s/%s' % (t[0].cfg['name'], t[1]), cost.get(t[1], 60)))
         results = []
         with concurrent.futures.ThreadPoolExecutor(max_workers=jobs) as ex:
             futs = [ex.submit(verif.prove, b, fn) for (b, fn) in tasks]
